@@ -715,8 +715,12 @@ struct Digit {
                         const Char_T digit = content[offset];
 
                         if ((digit >= DigitUtils::DigitChar::Zero) && (digit <= DigitUtils::DigitChar::Nine)) {
-                            exponent *= SizeT32{10};
-                            exponent += SizeT32(digit - DigitUtils::DigitChar::Zero);
+                            // Any exponent this large is out of range; stop growing before SizeT32 wraps.
+                            if (exponent < SizeT32{100000000}) {
+                                exponent *= SizeT32{10};
+                                exponent += SizeT32(digit - DigitUtils::DigitChar::Zero);
+                            }
+
                             ++offset;
                             continue;
                         }
